@@ -1689,8 +1689,17 @@ tpt_ev_enable_args(int enable, uint16_t event, uint16_t flags,
 
 int
 tpt_ev_enable_args1(int enable, uint16_t event, tp_udata_p tp_udata) {
+	uint16_t flags = 0;
 
+#ifdef __linux__
+	/* epoll: flags are stored again on every enable/disable, keep the
+	 * registered ones, kqueue does this by itself. */
+	if (NULL != tp_udata &&
+	    TP_EV_LAST >= event) {
+		flags = (uint16_t)TPDATA_FLAGS_GET(tp_udata->tpdata, event);
+	}
+#endif
 	return (tpt_ev_post_validate_args(
 	    ((0 != enable) ? TP_CTL_ENABLE : TP_CTL_DISABLE),
-	    event, 0, 0, 0, tp_udata));
+	    event, flags, 0, 0, tp_udata));
 }
